@@ -81,7 +81,7 @@ func VH_C33_active(answer int) {
 
 // VH_C33_sleep(answer): the client calls Sleep at an arbitrary instant within
 // the first two keep-alive periods; a keep-alive ping may be in flight
-// (unanswered when answer = 0). Once the client is asleep it sends no
+// (unanswered when answer = 0; answered after the Sleep call when answer = 2). Once the client is asleep it sends no
 // keep-alive PINGREQ (retransmissions included), and the Sleep call itself is
 // not failed by the keep-alive exchange.
 func VH_C33_sleep(answer int) {
@@ -92,15 +92,20 @@ func VH_C33_sleep(answer int) {
 	answered := 0
 	wait := vNondetDelay("sleep_at")
 	vAssume(vAnd(wait > 0, wait < 2*k+k/2))
-	if answer == 0 {
+	if answer == 0 || answer == 2 {
 		// the first keep-alive ping (sent at k) is still in flight, within its retry budget
 		vAssume(vAnd(wait > k, wait < k+int64(cfg.RetryDelay)*int64(cfg.RetryCount+1)))
 	}
-	vLabel("ping_in_flight", uint64(1-answer))
+	// (answer = 2: the ping in flight is answered, but only after Sleep has been called)
+	vLabel("ping_in_flight", vB2U(answer == 0))
 	vSleepUntil(vNow() + wait)
 	_ = answered
 	d := 3 * time.Second
 	w.call(func() error { return w.c.Sleep(d) })
+	if answer == 2 {
+		w.gwSends(pkts1.NewPingresp())
+		vReach("C33.late_pingresp")
+	}
 	// the gateway confirms the sleep request
 	w.gwSends(pkts1.NewDisconnect(0))
 	_ = answered
